@@ -10,9 +10,23 @@ RESERVED = set(['A', 'E', 'X', 'F', 'G', 'U', 'R', 'not', 'and', 'or',
 
 ATOM_POOL = ['p', 'q', 'r']
 
+LONG = 'the_request_line_of_the_bus_arbiter_is_asserted_by_client_'
 RENAME_POOL = ['x1', 'alpha', 'P_2', 'fair', 'fair0', 'Z', 'a', 'b', 'ok',
                'up', 'down', '_t', 'q0', 'pp', 'AG', 'EX', 'notp', 'orq',
-               'trueish', 'p', 'q', 'r', 'e', 'f', 'g', 'u', 'x']
+               'trueish', 'p', 'q', 'r', 'e', 'f', 'g', 'u', 'x',
+               # long names that differ in the last character only
+               LONG + 'a', LONG + 'b', LONG + 'c']
+assert len(set(RENAME_POOL)) == len(RENAME_POOL)
+
+
+def rename_map(rng, atoms):
+    """An injective renaming of the given atoms."""
+    if rng.random() < 0.12:
+        names = [LONG + c for c in 'abcdefgh'[:len(atoms)]]
+        rng.shuffle(names)
+    else:
+        names = rng.sample(RENAME_POOL, len(atoms))
+    return dict(zip(atoms, names))
 
 
 def gen_graph(rng, n, shape):
@@ -169,9 +183,26 @@ def _leaf(rng, atoms, pconst=0.12):
     return ['ap', rng.choice(atoms)]
 
 
+def assoc_twin(rng, gen_sub):
+    """The same operands once as a flat n-ary and once as a nested and/or,
+    joined by another connective: Or(a, b, c) vs Or(a, Or(b, c))."""
+    op = rng.choice(['Or', 'And'])
+    xs = [gen_sub() for _ in range(3)]
+    flat = [op] + xs
+    nested = [op, xs[0], [op, xs[1], xs[2]]] if rng.random() < 0.5 \
+        else [op, [op, xs[0], xs[1]], xs[2]]
+    pair = [flat, nested]
+    rng.shuffle(pair)
+    return pair
+
+
 def gen_ctl(rng, depth, atoms, pc=0.12):
     if depth <= 0 or rng.random() < 0.2:
         return _leaf(rng, atoms, pc)
+    if depth >= 2 and rng.random() < 0.04:
+        a, b = assoc_twin(rng, lambda: gen_ctl(rng, 0, atoms, pc))
+        return [rng.choice(['A', 'E']), ['U', a, b]] if rng.random() < 0.5 \
+            else ['And', ['Not', a], b]
     k = rng.choice(['Not', 'And', 'Or', 'Imply', 'Q', 'Q', 'Q'])
     if k == 'Not':
         return ['Not', gen_ctl(rng, depth - 1, atoms, pc)]
@@ -195,6 +226,14 @@ def gen_path(rng, depth, atoms, budget, state_gen=None, pc=0.12):
         if state_gen is not None and rng.random() < 0.3:
             return state_gen()
         return _leaf(rng, atoms, pc)
+    if depth >= 2 and budget[0] > 0 and rng.random() < 0.1:
+        a, b = assoc_twin(rng, lambda: _leaf(rng, atoms, pc))
+        budget[0] -= 1
+        k = rng.choice(['U', 'R', 'AndNot', 'AndNot'])
+        if k == 'AndNot':
+            d = _leaf(rng, atoms, pc)
+            return ['And', ['Not', ['U', a, d]], b]
+        return [k, a, b]
     ks = ['Not', 'And', 'Or', 'Imply']
     if budget[0] > 0:
         ks += ['X', 'F', 'G', 'U', 'R', 'X', 'F', 'G', 'U', 'R']
@@ -210,6 +249,14 @@ def gen_path(rng, depth, atoms, budget, state_gen=None, pc=0.12):
             gen_path(rng, depth - 1, atoms, budget, state_gen, pc)]
 
 
+def rename_atoms_local(tree, name):
+    if tree[0] == 'ap':
+        return ['ap', name]
+    if tree[0] == 'bool':
+        return tree
+    return [tree[0]] + [rename_atoms_local(t, name) for t in tree[1:]]
+
+
 def gen_ltl(rng, depth, atoms, tmax=3, pc=0.12):
     return ['A', gen_path(rng, depth, atoms, [tmax], None, pc)]
 
@@ -221,6 +268,16 @@ def gen_ctls(rng, depth, atoms, tmax=3, qnest=2, pc=0.12):
     def state(d, q):
         if d <= 0 or rng.random() < 0.15:
             return _leaf(rng, atoms, pc)
+        if q > 0 and d >= 2 and len(atoms) >= 2 and rng.random() < 0.08:
+            # the same quantified shape over two different atoms, as in
+            # specifications written once per process
+            a1, a2 = rng.sample(atoms, 2)
+            shape = [rng.choice(['A', 'E']),
+                     gen_path(rng, d - 1, ['@'], budget, None, 0.0)]
+            f1 = rename_atoms_local(shape, a1)
+            f2 = rename_atoms_local(shape, a2)
+            return [rng.choice(['And', 'Or']), f1,
+                    ['Not', f2] if rng.random() < 0.5 else f2]
         ks = ['Not', 'And', 'Or', 'Imply']
         if q > 0:
             ks += ['Q', 'Q', 'Q', 'Q']
